@@ -27,8 +27,12 @@ def main() -> int:
     acc = Acc(check_id, k, n, budget)
     status = "ok"
     err = ""
+    from .acc import StopShard
+
     try:
         mod.run_shard(tier, k, n, acc)
+    except StopShard:
+        pass
     except BaseException as e:  # noqa: BLE001
         status = "error"
         err = "".join(traceback.format_exception(type(e), e, e.__traceback__))
